@@ -5,13 +5,15 @@ namespace XmppModel.Driver.C04
 
 /-- `hs <name> <kind> <n>`: a handshake with the library's own features under one fault
 (`cut` of the peer's stream after `n` bytes, failing `rd`/`wr` number `n`, `cancel` before the
-peer's step `n`); the prediction is `C04_fail_closed`: any fault ends in failure, the
+peer's step `n`; over a real net.Pipe: `pwr` cancellation while blocked in write `n`, `prd` while
+blocked in the read before the peer's step `n`); the prediction is `C04_fail_closed`: any fault ends in failure, the
 fault-free run (`clean`) completes -/
 def handle (args : List String) : Option String :=
   match args with
   | ["hs", _name, kind, _n] =>
-    if kind == "clean" then some "done"
-    else if kind == "cut" || kind == "rd" || kind == "wr" || kind == "cancel" then some "fail"
+    if kind == "clean" || kind == "pclean" then some "done"
+    else if kind == "cut" || kind == "rd" || kind == "wr" || kind == "cancel" || kind == "pwr" || kind == "prd"
+      then some "fail"
     else none
   | _ => XmppModel.Driver.C01.handle args
 
